@@ -37,7 +37,9 @@ ASSUMPTIONS = ["the output image of the channel is zero when the device starts (
                "one cycle = terminal processes the previous outputs, then update() runs once on the inputs it presents"]
 RULE = ("cases = channel (1|2) x initial status bits/in_string x init delay 0..5 x accept delays 0..5 (rarely 6..12) x receive plan "
         "(idle 0..5 cycles, chunk of 0..22 bytes incl. empty and full, rarely longer so that 23p truncates) x per-cycle application "
-        "writes of 1..100 bytes (split across 22-byte reads) x 20..140 cycles; non-trivial = chunks accepted and chunks delivered in the same run")
+        "writes of 1..100 bytes (split across 22-byte reads) x 20..140 cycles, followed by a drain phase (no writes, terminal without "
+        "delays, one cycle per possible chunk + slack) after which everything written must have been accepted; "
+        "non-trivial = chunks accepted and chunks delivered in the same run")
 
 BITS_IN = ("transmit_accept", "receive_request", "init_accept")
 BITS_OUT = ("transmit_request", "receive_accept", "init_request")
@@ -109,6 +111,15 @@ class Sim:
         self.ta, self.seen_tr, self.wait, self.delays = case["ta0"], False, None, list(case["txDelays"])
         self.rr, self.in_str, self.seen_ra, self.outstanding = case["rr0"], bytes.fromhex(case["in0"]), False, False
         self.plan = [[d, bytes.fromhex(c)] for d, c in case["rxPlan"]]
+
+    def drain(self):
+        """same as Ebv.Serial.Term.drain: from now on no delays"""
+        self.init_wait = 0
+        self.delays = []
+        if self.wait is not None:
+            self.wait = 0
+        for e in self.plan:
+            e[0] = 0
 
     def step(self, tr, ra, ir, out_str):
         accepted = announced = None
@@ -188,8 +199,11 @@ def run_impl(case):
     obs = []
     try:
         dev.sync_group = Group(term, data, in_base, out_base)
-        for w in case["writes"]:
+        nmain = len(case["writes"])
+        for k, w in enumerate(case["writes"] + [""] * case["drain"]):
             w = bytes.fromhex(w)
+            if k == nmain:
+                sim.drain()
             accepted, announced = sim.step(img.bit("transmit_request"), img.bit("receive_accept"),
                                            img.bit("init_request"), img.raw("out_string"))
             for nm, v in zip(BITS_IN, (sim.ta, sim.rr, sim.phase == "acking")):
@@ -199,7 +213,7 @@ def run_impl(case):
             if w:
                 assert os.write(dev.out_write, w) == len(w)
             keep = img.outside()
-            o = {"w": w, "accepted": accepted, "announced": announced,
+            o = {"w": w, "accepted": accepted, "announced": announced, "drain": k >= nmain, "plan_left": len(sim.plan),
                  "inp": (sim.ta, sim.rr, sim.phase == "acking")}
             try:
                 dev.update()
@@ -322,9 +336,26 @@ def oracle(ctx, case, obs):
         prev_tr, prev_ra, prev_out_str = tr, ra, o["out_str"]
         if not ok:
             return
+    # ---- after the drain phase (no further writes, terminal without delays, enough cycles for everything
+    # outstanding) every chunk read from the application pipe has been announced and transferred
+    if obs and len(obs) == len(case["writes"]) + case["drain"]:
+        o = obs[-1]
+        req(b"".join(acc) == written and o["pending"] is None and o["unread"] == 0,
+            "transmit direction stalled: bytes the application wrote were never accepted by the terminal "
+            f"({len(written) - len(b''.join(acc))} missing, {o['unread']} unread in the pipe, "
+            f"current_transmit {'set' if o['pending'] is not None else 'empty'})", "tx-stall")
+        req(o["plan_left"] == 0 and ra_toggles == len(ann),
+            "receive direction stalled: announced chunks were never acknowledged", "rx-stall")
 
 
 # ---------------------------------------------------------------- generators
+def drain_len(writes, plan, init_wait):
+    """cycles that suffice without delays: connect, one cycle per chunk (a chunk ends at 22 bytes or where the
+    pipe ran empty, i.e. at most once per write), one per planned receive chunk, and some slack"""
+    total = sum(len(w) // 2 for w in writes)
+    return init_wait + 6 + (total + 21) // 22 + sum(1 for w in writes if w) + len(plan)
+
+
 def gen(rng, maxcycles):
     kind = rng.choices(["both", "both-busy", "tx", "rx", "idle"], [50, 25, 10, 10, 5])[0]
     n = rng.randrange(20, maxcycles + 1)
@@ -355,7 +386,8 @@ def gen(rng, maxcycles):
     in0 = bytes([rng.choice([0, 3, 22, 23, 255, rng.randrange(256)])] + [rng.randrange(256) for _ in range(22)])
     size = 160
     lay = rng.choice([(2, 60), (70, 3), (10, 110), (100, 20)])
-    return {"kind": kind, "chan": chan, "ta0": rng.random() < 0.5, "rr0": rng.random() < 0.5, "in0": in0.hex(),
+    drain = drain_len(writes, plan, 5)
+    return {"kind": kind, "drain": drain, "chan": chan, "ta0": rng.random() < 0.5, "rr0": rng.random() < 0.5, "in0": in0.hex(),
             "initWait": rng.randrange(0, 6), "txDelays": txd, "rxPlan": plan, "writes": writes,
             "fill": rng.randrange(1 << 30), "size": size, "layout": list(lay)}
 
@@ -365,11 +397,15 @@ def handmade():
     full = bytes(range(22)).hex()
     base = {"kind": "hand", "chan": 1, "ta0": False, "rr0": False, "in0": bytes(23).hex(), "initWait": 0,
             "fill": 1, "size": 160, "layout": [2, 60]}
-    yield dict(base, txDelays=[], rxPlan=[[0, full], [0, ""], [0, full], [0, "00"]], writes=[""] * 2 + [bytes(range(100)).hex()] + [""] * 12)
-    yield dict(base, chan=2, ta0=True, rr0=True, txDelays=[5, 0, 5, 0, 3], rxPlan=[[5, ""], [0, full], [5, "ff"]],
-               writes=[bytes(range(50)).hex()] + [""] * 6 + ["aa"] * 30)
-    yield dict(base, txDelays=[0, 1, 2, 3, 4, 5], rxPlan=[[0, bytes(range(30)).hex()]] * 3, writes=["ab" * 23] * 40)
-    yield dict(base, initWait=5, txDelays=[2] * 10, rxPlan=[[1, full]] * 10, writes=["01" * 7] * 60)
+    for c in (
+        dict(base, txDelays=[], rxPlan=[[0, full], [0, ""], [0, full], [0, "00"]], writes=[""] * 2 + [bytes(range(100)).hex()] + [""] * 12),
+        dict(base, chan=2, ta0=True, rr0=True, txDelays=[5, 0, 5, 0, 3], rxPlan=[[5, ""], [0, full], [5, "ff"]],
+             writes=[bytes(range(50)).hex()] + [""] * 6 + ["aa"] * 30),
+        dict(base, txDelays=[0, 1, 2, 3, 4, 5], rxPlan=[[0, bytes(range(30)).hex()]] * 3, writes=["ab" * 23] * 40),
+        dict(base, initWait=5, txDelays=[2] * 10, rxPlan=[[1, full]] * 10, writes=["01" * 7] * 60),
+        dict(base, txDelays=[9] * 3, rxPlan=[[3, full]] * 20, writes=["5a" * 90] * 4),      # ends mid-transfer: drain does the rest
+    ):
+        yield dict(c, drain=drain_len(c["writes"], c["rxPlan"], c["initWait"]))
 
 
 def classify(obs):
@@ -380,7 +416,7 @@ def classify(obs):
 
 def run(ctx):
     maxc = ctx.n(100, 140)
-    cases = list(handmade()) + [gen(ctx.rng, maxc) for _ in range(ctx.n(1200, 30000))]
+    cases = list(handmade()) + [gen(ctx.rng, maxc) for _ in range(ctx.n(800, 20000))]
     impl = []
     for c in cases:
         obs = run_impl(c)
